@@ -4,6 +4,8 @@ from lib.facts import norm, callee_name, Origin, Site
 from lib.rules import agg_sites, field_writes
 from lib.tables import describe
 
+from lib.tables import strip_suffix, enumerate_paths  # noqa: E402
+
 META = dict(
     level='other',
     explanation=(
@@ -125,7 +127,7 @@ def reader_table(ctx):
             absent = 'const'
         zero_none = False
         if absent == 'match':
-            zero_none = zero_maps_to_none(b, o)
+            zero_none = zero_maps_to_none(b, o, ctx.facts)
             alts = [describe(a) for a in o.alts]
             absent = 'default'      # every match form in this file supplies a default for the absent key
             if not any('DEFAULT' in a or re.search(r'Some\(const\(\d+\)\)', a) for a in alts):
@@ -134,28 +136,93 @@ def reader_table(ctx):
     return b, rows
 
 
-def zero_maps_to_none(b, o):
-    """o is the phi of a `match take_u64(k)? { Some(0) => None, Some(v) => Some(..), None => default }`:
-    true iff there is a switch on the taken integer whose 0-edge leads (through empty blocks) to the block that
-    assigns Option::None to the phi local, and no other edge of that switch does."""
+def _zero_verdict(cm, what):
+    """Does the path establish `what == 0` ('zero'), `what != 0` ('nonzero'), or neither (None)? `what` is a regex for
+    the description of the tested integer."""
+    for v, labs in cm.items():
+        base = strip_suffix(v)
+        labs = {str(x) for x in labs}
+        if re.search(what + r'$', base) and labs and labs <= {'0', 'other'} | {str(i) for i in range(1, 10)}:
+            return 'zero' if labs == {'0'} else 'nonzero'
+        m = re.match(r'^cmp\((.*),const\(0\)\)$', base) or re.match(r'^cmp\(const\(0\),(.*)\)$', base)
+        if m and re.search(what + r'$', m.group(1)):
+            return 'zero' if labs == {'Equal'} else ('nonzero' if 'Equal' not in labs else None)
+    return None
+
+
+def helper_zero_to_none(facts, nm):
+    """A small function `fn f(v: u64) -> Option<u64>`: returns None exactly for v == 0 and Some(v) otherwise."""
+    hbs = facts.find(nm)
+    if len(hbs) != 1 or len(hbs[0].blocks) > 60:
+        return False
+    hb = hbs[0]
+    args = [d['name'] for d in hb.rec.get('debug', []) if d.get('arg')]
+    seen = set()
+    for p in enumerate_paths(hb, facts):
+        if p.kind != 'return':
+            return False
+        z = None
+        for a in args:
+            z = z or _zero_verdict(p.cond_map(), re.escape(a))
+        o = p.outcome or ''
+        if z == 'zero' and o == 'Option::None()':
+            seen.add('zero')
+        elif z == 'nonzero' and o.startswith('Option::Some('):
+            seen.add('nonzero')
+        else:
+            return False
+    return seen == {'zero', 'nonzero'}
+
+
+def zero_maps_to_none(b, o, facts=None):
+    """o is the value of a `match take_u64(k)? { Some(0) => None, Some(v) => Some(..), None => default }` (in whatever
+    shape: nested ifs, `== 0`, a helper `fn limit(v) -> Option<u64>`): on every path from the take call to the next key,
+    a taken 0 yields None for the field and a taken non-zero value yields Some(..)."""
     tks = takes_in(o)
     if not tks or o.kind != 'multi':
         return False
-    for sbb in b.switches():
-        so, edges = b.switch_edges(sbb)
-        if so is None:
+    facts = facts or _FACTS[0]
+    for meth, key, c in tks:
+        if c is None or not key:
             continue
-        sd = describe(so)
-        if not any(t[1] and ('const("%s")' % t[1]) in sd for t in tks):
+        site = c.site
+        nxt = site.term.get('to')
+        if nxt is None:
             continue
-        if not sd.endswith('@Some.0'):
-            continue
-        zero = [tb for tb, labs in edges.items() if {str(l) for l in labs} == {'0'}]
-        other = [tb for tb in edges if tb not in zero]
-        if not zero:
-            continue
-        return all(assigns_none(b, tb, o.local) for tb in zero) and not any(assigns_none(b, tb, o.local) for tb in other)
+        seen = set()
+        ok = True
+        for p in enumerate_paths(b, facts, start=nxt, stop_calls=['re:config::ConfigFile::take_\\w+$'], max_paths=2000):
+            val = p.local_value(o.local)
+            if val is None:
+                continue        # the `?` exit, or a path that does not assign the field value
+            cm = p.cond_map()
+            taken = r'const\("%s"\)\)(@Continue\.0)?@Some\.0' % re.escape(key)
+            z = _zero_verdict(cm, taken)
+            if z is None:
+                # presence not established or absent key: no claim
+                continue
+            if z == 'zero':
+                seen.add('zero')
+                ok = ok and val == 'Option::None()'
+            else:
+                hm = re.match(r'^call:((?:\w+::)*\w+)\(.*%s\)$' % taken, val)
+                if hm and helper_zero_to_none(facts, hm.group(1)):
+                    seen |= {'zero', 'nonzero'}
+                    continue
+                seen.add('nonzero')
+                ok = ok and val.startswith('Option::Some(')
+        if ok and seen == {'zero', 'nonzero'}:
+            return True
+        # value computed by a helper for every taken value: `Some(v) => limit(v)`
+        for p in enumerate_paths(b, facts, start=nxt, stop_calls=['re:config::ConfigFile::take_\\w+$'], max_paths=2000):
+            val = p.local_value(o.local) or ''
+            hm = re.match(r'^call:((?:\w+::)*\w+)\(.*@Some\.0\)$', val)
+            if hm and ('const("%s")' % key) in val and helper_zero_to_none(facts, hm.group(1)):
+                return True
     return False
+
+
+_FACTS = [None]
 
 
 def assigns_none(b, tb, local):
